@@ -12,13 +12,14 @@ Q = 10000          # distances in units of 1e-4
 BFS = [(0, 1), (1, 5), (2, 5), (1, 2), (1, 1)]
 
 
-def build_case(pts, soma, bf, k, ex, sort, dtype, api):
+def build_case(pts, soma, bf, k, ex, sort, dtype, api, unit=1.0):
+    """unit: the length unit of the coordinates (distances are handed to TLC in units of 1e-4 of it: the statement is free of units)"""
     allp = np.array(([soma] if soma is not None else []) + list(pts), dtype=np.float64)
     if dtype == "f32":
         allp = allp.astype(np.float32).astype(np.float64)         # the values the library is actually given
     n = len(allp)
-    D = np.linalg.norm(allp[:, None, :] - allp[None, :, :], axis=2)
-    err = 1e-9 * (1 + np.abs(allp).max())
+    D = np.linalg.norm(allp[:, None, :] - allp[None, :, :], axis=2) / unit
+    err = 1e-9 * (1 + np.abs(allp).max() / unit)
     if dtype == "f32":
         err = 8 * float(np.spacing(np.float32(np.abs(allp).max() + D.max())))       # float32 arithmetic inside the library
     equ = int(math.ceil(err * Q)) + 1
@@ -32,7 +33,7 @@ def execute(c):
     from swcgeom.transforms import PointsToCuntzMST, PointsToMST
     dt = {"f32": np.float32, "f64": np.float64, "i64": np.int64, "i32": np.int32}[c["dtype"]]
     pts = np.array(c["pts"], dtype=dt)
-    soma = None if not c["soma"] else np.array(c["soma"], dtype=dt)
+    soma = None if not c["soma"] else np.array(c["soma"], dtype=(np.float64 if np.dtype(dt).kind == "i" else dt))     # a soma need not sit on a voxel centre
     if c["api"] == "mst":
         tf = PointsToMST(furcations=c["k"], exclude_soma=c["ex"], sort=c["sort"])
     else:
@@ -86,6 +87,8 @@ def lattice_cases(ctx, q):
                 pts = pts[1:]
                 if not pts:
                     continue
+                if t % 4 in (1, 3) and (t // 4) % 2:
+                    soma = (soma[0] + 0.5, soma[1] + 0.25, soma[2] - 0.25)          # integer (voxel index) cloud, soma between voxel centres
             api = "mst" if bf == (0, 1) and t % 3 == 0 else "cuntz"
             c = build_case(pts, soma, bf, k, ex, sort, ["f64", "i64", "f64", "i32"][t % 4], api)       # voxel indices (integer arrays) are point clouds too
             if t % 4 == 1:
@@ -119,7 +122,13 @@ def random_cases(ctx, count, nmax):
         if t % 6 == 3:
             # coincident points in a general cloud: two rows recorded twice, and (when a soma is given) the soma again as a row
             pts = np.concatenate([pts, pts[:2]] + ([np.array([soma])] if soma is not None else []))
-        c = build_case([list(r) for r in pts], soma, bf, k, ex, t % 3 != 1, dtype, api)
+        unit = 1.0
+        if t % 9 == 5 and dtype == "f64":
+            # the same kind of cloud given in metres instead of micrometres
+            unit = 1e-6
+            pts = (pts - pts.mean(axis=0)) * unit
+            soma = None if soma is None else list(pts.mean(axis=0))
+        c = build_case([list(r) for r in pts], soma, bf, k, ex, t % 3 != 1, dtype, api, unit=unit)
         if t % 3 == 2:              # a history: the transform object is first used on tiny clouds
             c["prev"] = [[list(r) for r in pts[:2]]] + ([[list(r) for r in pts[2:5]]] if t % 2 else [])
         out.append(c)
